@@ -122,7 +122,11 @@ class Ctx:
             if not o["ok"] and not semantic and any(" ".join(str(f.message).split()) == o["what"] for f in soft):
                 o = dict(o, ok=True, what=f"textual form not recognised; behaviour decided by {', '.join(decided_by)}: " + o["what"])
             self.obligations.append(o)
-        self.minimums.update(scratch.minimums)
+        for rid_, (need_, why_) in scratch.minimums.items():
+            # a confidence-only rule that no longer finds its instances is not applicable, it does not fail the run
+            if scratch.count(rid_) < need_:
+                self.notes.append(f"{what}: only {scratch.count(rid_)} of the {need_} instances ({why_}) are in the form this rule reads; "
+                                  f"behaviour decided by {', '.join(decided_by)}")
         self.facts.extend(scratch.facts)
         self.notes.extend(scratch.notes)
         if soft and not semantic:
